@@ -271,10 +271,11 @@ def alignment_set(draw, base=None):
                 p = p[i:j]
             b = dict(a, pairs=p)
             if mode == "other-key":
-                b["r"] = draw(st.integers(1, 3))
+                b["r"] = draw(st.sampled_from([0, 1, 2, 3, 2 ** 32 + 1]))
             out.append(b)
     for _ in range(draw(st.integers(0, 3 if base is not None else 5))):
-        out.append({"q": draw(st.integers(1, 4)), "r": draw(st.integers(1, 3)), "pairs": draw(pairs_st()), "rev": draw(st.booleans())})
+        out.append({"q": draw(st.sampled_from([0, 1, 2, 3, 4, 2 ** 53 + 1, 2 ** 53 + 3])), "r": draw(st.sampled_from([0, 1, 2, 3, 2 ** 32 + 1])),
+                    "pairs": draw(pairs_st()), "rev": draw(st.booleans())})
     return out
 
 
